@@ -238,6 +238,12 @@ class Run:
         self.cov["hygiene_files_scanned"] = len(files)
 
     def traced(self):
+        if hasattr(self.mod, "pre_build"):
+            try:
+                self.mod.pre_build(self.bdir)
+            except Exception as e:  # extraction failure = broken tie (fail closed)
+                self.obligations += 1
+                self.broken.append(("extract", "pre_build failed: %s\n%s" % (e, traceback.format_exc()[-1500:])))
         kernels = self.mod.kernels() if hasattr(self.mod, "kernels") else []
         jobs, infos = [], {}
         for k in kernels:
